@@ -105,7 +105,10 @@ func (p *ethPeer) note(format string, a ...interface{}) {
 	p.s.note(p.role+": "+format, a...)
 }
 
-func (p *ethPeer) sendHashes(hs []types.Hash) { p.sendEth(protocol.BlockHashesMsg, mustRlp(hs)) }
+func (p *ethPeer) sendHashes(hs []types.Hash) {
+	p.s.dlHashes(p, hs) // (trace for the downloader model, s_p2p_dl.go)
+	p.sendEth(protocol.BlockHashesMsg, mustRlp(hs))
+}
 func (p *ethPeer) sendBlocks(bs []*nom.DetailedMomentum) {
 	if bs == nil {
 		bs = []*nom.DetailedMomentum{}
@@ -115,6 +118,7 @@ func (p *ethPeer) sendBlocks(bs []*nom.DetailedMomentum) {
 		p.delivered[b.Momentum.Hash] = true
 	}
 	p.mu.Unlock()
+	p.s.dlBlocks(p, bs)
 	p.sendEth(protocol.BlocksMsg, mustRlp(bs))
 }
 
@@ -129,6 +133,7 @@ func (p *ethPeer) handle(code uint64, pay []byte) {
 		p.hashReqs++
 		nth := p.hashReqs
 		p.mu.Unlock()
+		p.s.dlHashReq(p, q.Number, q.Amount)
 		reply, answer := honestHashes(p.chain, q.Number, q.Amount), true
 		if p.onHashReq != nil {
 			reply, answer = p.onHashReq(nth, q.Number, q.Amount)
@@ -147,6 +152,7 @@ func (p *ethPeer) handle(code uint64, pay []byte) {
 		} else {
 			p.note("hash request #%d (from %d, %d) NOT answered", nth, q.Number, q.Amount)
 		}
+		p.s.dlHashReqDone(p)
 		if p.after != nil {
 			p.after("hashreq", nth)
 		}
@@ -177,6 +183,7 @@ func (p *ethPeer) handle(code uint64, pay []byte) {
 			p.asked[h] = true
 		}
 		p.mu.Unlock()
+		p.s.dlBlockReq(p, hs)
 		reply, answer := p.honestBlocks(hs), true
 		if p.onBlockReq != nil {
 			reply, answer = p.onBlockReq(nth, hs)
@@ -284,6 +291,7 @@ func (s *syncScn) fail(class, format string, a ...interface{}) {
 	s.mu.Lock()
 	s.failed = true
 	s.mu.Unlock()
+	s.dlFail(class)
 	s.n.fail("C15 class=%s scenario=%s: %s; node height %d; peers: %s; what happened: %s", class, s.name, fmt.Sprintf(format, a...),
 		s.height(), s.peerStates(), s.story())
 }
@@ -368,6 +376,7 @@ func (s *syncScn) peer(role string, td uint64, upTo int, setup func(p *ethPeer))
 	s.mu.Lock()
 	s.peers = append(s.peers, p)
 	s.mu.Unlock()
+	s.dlRegister(p)
 	s.note("%s connects (claims total difficulty %d, holds %d momentums)", role, td, upTo)
 	raw.start()
 	return p
@@ -1014,6 +1023,7 @@ func p2pNetSyncAt(n *netCtx, src []*nom.DetailedMomentum, K int) {
 			if p := safely(func() { sc.run(s) }); p != "" {
 				s.fail("harness-panic", "the scenario script panicked: %s", firstLine(p))
 			}
+			s.dlEmit()
 			s.mu.Lock()
 			failed := s.failed
 			s.mu.Unlock()
